@@ -61,6 +61,14 @@ def snapshot(c):
     return jsonx.dumps(out)
 
 
+DERIVED_NAMES = ["domains", "uris", "domain_uri_pairs", "submit_uri", "killdate", "protocol", "port", "watermark", "is_trial", "version", "public_key", "sleeptime", "jitter"]
+
+
+def _derived(c, name):
+    v = getattr(c, name)
+    return str(v) if name == "version" else v
+
+
 def transform_state(t):
     return norm([t.tsteps, t.rsteps])
 
@@ -224,6 +232,7 @@ class State:
 
         self.c2, self.prof, self.BeaconConfig = c2, c2profile, BeaconConfig
         cfg = cfgbuild.normalize_cfg(init["cfg"])
+        cfg["stale"] = bytes(init.get("stale") or b"")
         extra = []
         if init["extras"]:
             extra = [
@@ -244,6 +253,13 @@ class State:
         self.initial = lib(lambda: snapshot(self.cfgobj), what="snapshot")
         self.ndecoders = 0
         self.profile_after_decoder = False
+        # every derived property read FIRST on an object of its own (before any view exists) gives what it gives on an
+        # object whose views have all been read: the value does not depend on the order of access
+        for name in DERIVED_NAMES:
+            first = lib(lambda: norm(_derived(self.BeaconConfig(self.block), name)), what=f"fresh configuration: .{name} read first")
+            later = lib(lambda: norm(_derived(self.cfgobj, name)), what=f".{name} after all views")
+            if first != later:
+                raise Violation("mutation:depends_on_access_order", f".{name} read first on a fresh object is {first!r}, after the views have been read it is {later!r}")
         # names an unrelated message already carries when this history starts (nothing on a sound tree): the foreign-field
         # oracle only counts what appears during this history, so that every reported history reproduces by itself
         probe = lib(lambda: c2.HttpDataTransform([("BUILD", "metadata"), ("PRINT", True)]).transform(c2.C2Data(metadata=b"")), what="probe transform")
@@ -325,7 +341,7 @@ def finish(st_, case, stats):
 
 # settings whose index has two names (16, 17, 48) or belongs to the pre-4.x kill date triple (16, 17, 18), index 36
 _legacy = st.lists(st.tuples(st.sampled_from([16, 17, 18, 48, 36, 6969]), st.sampled_from([0, 1, 2, 12, 28, 2024])), max_size=5, unique_by=lambda t: t[0])
-init_strategy = st.fixed_dictionaries({"cfg": S.http_beacon_config(printable=True), "extras": st.booleans(), "gate": S.gate_flags, "legacy": st.one_of(st.just([]), _legacy)})
+init_strategy = st.fixed_dictionaries({"cfg": S.http_beacon_config(printable=True), "extras": st.booleans(), "gate": S.gate_flags, "legacy": st.one_of(st.just([]), _legacy), "stale": st.one_of(st.just(b""), st.sampled_from([b"ld/path/of/previous/profile", b"X", b"\xff\xfe", b"/stale\x00more"]), st.binary(min_size=1, max_size=10))})
 VIEW_NAMES = ["settings", "raw_settings", "settings_by_index", "raw_settings_by_index", "derived", "map:name:1:1", "map:const:0:0", "map:enum:1:0", "map:enum:0:1"]
 
 
